@@ -222,6 +222,18 @@ impl Transaction {
     }
 }
 
+#[cfg(feature = "verif-hooks")]
+impl Transaction {
+    /// Read-only view of the memoised hashPrevouts / hashSequence / hashOutputs slots.
+    pub fn verif_hash_cache(&self) -> [Option<Vec<u8>>; 3] {
+        [
+            self.hash_cache.hash_inputs.as_ref().map(|h| h.to_bytes()),
+            self.hash_cache.hash_sequence.as_ref().map(|h| h.to_bytes()),
+            self.hash_cache.hash_outputs.as_ref().map(|h| h.to_bytes()),
+        ]
+    }
+}
+
 /**
  * Platform Agnostic Functions
  * ie. Don't need Result<T, E>
